@@ -42,9 +42,9 @@ template<class T> struct wk<T*> { static constexpr int v = (wk<std::remove_cv_t<
 // type kind of the wrapped (or plain) type
 template<class T, class = void> struct tk { static constexpr int v = 13; };     // other
 template<> struct tk<bool> { static constexpr int v = 1; };
-template<class T> struct tk<T, std::enable_if_t<std::is_integral_v<T> && !std::is_same_v<T, bool>>> { static constexpr int v = (sizeof(T) == 1 ? 2 : sizeof(T) == 8 ? 3 : 0); }; // int / uchar-like / long-like
+template<class T> struct tk<T, std::enable_if_t<std::is_integral_v<T> && !std::is_same_v<T, bool>>> { static constexpr int v = (sizeof(T) == 1 ? 2 : sizeof(T) == 8 ? (std::is_signed_v<T> ? 3 : 17) : sizeof(T) == 2 ? 16 : 0); }; // int / 1-byte / long-like / ullong-like / short-like
 template<class T> struct tk<T, std::enable_if_t<std::is_enum_v<T>>> { static constexpr int v = 4; };
-template<class T> struct tk<T, std::enable_if_t<std::is_floating_point_v<T>>> { static constexpr int v = 5; };
+template<class T> struct tk<T, std::enable_if_t<std::is_floating_point_v<T>>> { static constexpr int v = (sizeof(T) == 4 ? 18 : 5); };
 template<class T> struct tk<T*, void> {
   using P = std::remove_cv_t<T>;
   static constexpr int v = std::is_function_v<P> ? 10 : std::is_void_v<P> ? 7 : std::is_pointer_v<P> ? 9 : std::is_class_v<P> ? 12 : std::is_same_v<P, char> ? 8 : 6;
@@ -74,8 +74,10 @@ int lib_f_int(int); void lib_f_ip(int*); void lib_f_fn(Fn); void lib_f_st(St); i
 '''
 
 TYPES = {'int': 'int', 'bool': 'bool', 'uchar': 'unsigned char', 'long': 'long', 'enum': 'En', 'double': 'double', 'ip': 'int*', 'vp': 'void*',
-         'cp': 'const char*', 'ipp': 'int**', 'fn': 'Fn', 'arr': 'Arr', 'st': 'St', 'stp': 'St*', 'null': 'std::nullptr_t'}
-KCODE = {'int': 0, 'bool': 1, 'uchar': 2, 'long': 3, 'enum': 4, 'double': 5, 'ip': 6, 'vp': 7, 'cp': 8, 'ipp': 9, 'fn': 10, 'arr': 11, 'stp': 12, 'other': 13, 'st': 14, 'null': 15}
+         'cp': 'const char*', 'ipp': 'int**', 'fn': 'Fn', 'arr': 'Arr', 'st': 'St', 'stp': 'St*', 'null': 'std::nullptr_t',
+         'short': 'short', 'ullong': 'unsigned long long', 'float': 'float'}
+KCODE = {'int': 0, 'bool': 1, 'uchar': 2, 'long': 3, 'enum': 4, 'double': 5, 'ip': 6, 'vp': 7, 'cp': 8, 'ipp': 9, 'fn': 10, 'arr': 11, 'stp': 12, 'other': 13, 'st': 14, 'null': 15,
+         'short': 16, 'ullong': 17, 'float': 18}
 WCODE = {'plain': 0, 'tainted': 1, 'tvol': 2, 'opaque': 3, 'callback': 4, 'appptr': 5, 'bhint': 6, 'ihint': 7, 'void': 8, 'ptrwrap': 9}
 
 
@@ -150,9 +152,9 @@ def all_rows():
     for w in ('bhint', 'ihint'):
         for r in UN:
             rows.append(('un', r, [(w, 'bool' if w == 'bhint' else 'int')]))
-    lhs = [(w, t) for w in ('tainted', 'tvol', 'plain') for t in ('int', 'bool', 'uchar', 'long', 'enum', 'double', 'ip', 'vp', 'fn', 'arr', 'st')] + [('bhint', 'bool'), ('ihint', 'int')]
-    rhs = [('plain', 'int'), ('plain', 'double'), ('plain', 'ip'), ('plain', 'null'), ('plain', 'enum'), ('plain', 'bool'), ('tainted', 'int'), ('tainted', 'bool'),
-           ('tainted', 'double'), ('tainted', 'ip'), ('tvol', 'int'), ('tvol', 'ip'), ('bhint', 'bool'), ('opaque', 'int')]
+    lhs = [(w, t) for w in ('tainted', 'tvol', 'plain') for t in ('int', 'bool', 'uchar', 'long', 'enum', 'double', 'ip', 'vp', 'fn', 'arr', 'st', 'short', 'ullong', 'float')] + [('bhint', 'bool'), ('ihint', 'int')]
+    rhs = [('plain', 'int'), ('plain', 'double'), ('plain', 'ip'), ('plain', 'null'), ('plain', 'enum'), ('plain', 'bool'), ('plain', 'long'), ('tainted', 'int'), ('tainted', 'bool'),
+           ('tainted', 'double'), ('tainted', 'ip'), ('tainted', 'ullong'), ('tvol', 'int'), ('tvol', 'ip'), ('tvol', 'short'), ('bhint', 'bool'), ('opaque', 'int')]
     for l in lhs:
         for o in BINOPS:
             for r in rhs:
@@ -405,8 +407,15 @@ def to_lean(table):
         ops = ", ".join(f"({WCODE[w]}, {KCODE[t]})" for w, t in r["ops"])
         res = result_of(r)
         acc.append(f"  ({rule_code(r['kind'], r['rule'])}, [{ops}], ({res[0]}, {res[1]}))")
-    L.append(",\n".join(acc))
-    L.append("]")
+    # (chunked: one huge list literal exceeds the elaborator's recursion depth)
+    L.pop()   # the header line of the single list
+    chunks = [acc[i:i + 800] for i in range(0, len(acc), 800)] or [[]]
+    for ci, ch in enumerate(chunks):
+        L.append(f"def accepted{ci} : List (Nat × List (Nat × Nat) × (Nat × Nat)) := [")
+        L.append(",\n".join(ch))
+        L.append("]")
+    L.append("/-- accepted single-step rows: (rule, operands as (wrapper, kind) codes, result (wrapper, kind)) -/")
+    L.append("def accepted : List (Nat × List (Nat × Nat) × (Nat × Nat)) := " + " ++ ".join(f"accepted{ci}" for ci in range(len(chunks))))
     L.append(f"def rejectedCount : Nat := {nrej}")
     L.append("/-- C02 sinks: (name, forbidden, accepted by the compiler) -/")
     L.append("def c02 : List (String × Bool × Bool) := [")
